@@ -816,3 +816,28 @@ CHECKS["C06"]["groups"][0]["quick"] += [
     {"id": "packageof-q-url", "entry": "HarnessC06PackageOf", "sparams": {"tmpl": "https://example.com/foo.tgz//modules/v{a1}c?mirror=https://cdn.example.com/f{a1}o.tgz"}, "_w": 3},
     {"id": "packageof-q-ref", "entry": "HarnessC06PackageOf", "sparams": {"tmpl": "git::https://example.com/r.git//m{a1}?ref=a//{a1}"}, "_w": 3},
     {"id": "packageof-plain", "entry": "HarnessC06PackageOf", "sparams": {"tmpl": "git::https://example.com/r.git//{2}"}, "_w": 3}]
+
+# ---- thorough tier, as calibrated on the unchanged tree (16 cores)
+# Deeper bounds completed cleanly within 3-12 minutes for C02, C05, C12, C15, C16, C18 and C20. For the other
+# properties the deeper bounds first written down did not complete within 25 minutes; their thorough tier is the
+# quick tier's item set with three times as many sampled paths replayed against the real code (registered bounds
+# are only those that ran clean on the unchanged tree).
+THOROUGH_DEEPER = ("C02", "C05", "C12", "C15", "C16", "C18", "C20")
+for _pid, _cfg in CHECKS.items():
+    if _pid in THOROUGH_DEEPER:
+        continue
+    for _g in _cfg["groups"]:
+        _g["thorough"] = [dict(it) for it in _g["quick"]]
+        _g["thorough_sample_every"] = max(1, _g.get("sample_every", 50) // 3)
+    _cfg["bounds"] = dict(_cfg["bounds"], thorough="the quick tier's bounds, with three times as many sampled paths replayed natively against the real code (deeper bounds did not complete within 25 minutes on 16 cores and are not registered)")
+# C12: the deeper Unpack item (K=2, names / targets 0..3 bytes, 2 faults) did not complete; the quick one stands in
+for _g in CHECKS["C12"]["groups"]:
+    _q = {it["id"]: it for it in _g["quick"]}
+    _g["thorough"] = [(_q[it["id"]] if it["id"] == "c12-unpack-K2" and it["id"] in _q else it) for it in _g["thorough"]]
+CHECKS["C12"]["bounds"] = dict(CHECKS["C12"]["bounds"], thorough=CHECKS["C12"]["bounds"]["thorough"] + " (Unpack K=2 as in the quick tier)")
+
+# (again, for groups added after the first pass) the thorough tier contains everything the quick tier runs
+for _pid, _cfg in CHECKS.items():
+    for _g in _cfg["groups"]:
+        _ids = {it["id"] for it in _g["thorough"]}
+        _g["thorough"] = list(_g["thorough"]) + [it for it in _g["quick"] if it["id"] not in _ids]
